@@ -262,21 +262,24 @@ def relDb (now : Int) (plus : Bool) (n : Nat) (u : TUnit) : Int :=
 
 inductive Rhs
   | lit (l : Lit)                                  -- '<literal>'
-  | rel (plus : Bool) (n : Nat) (u : TUnit)        -- NOW() ± INTERVAL 'n unit'
+  /-- `NOW() ± INTERVAL 'n unit'`; `capS` = the unit is spelled with a final CAPITAL `S` (`DAYS`): the regex
+      (case-insensitive) still matches, but `evaluateRelativeTime` trims a lower-case `s` BEFORE lower-casing, so
+      `DAYS` becomes `days`, hits the `default` arm and the bound is dropped (quirk; sound). -/
+  | rel (plus : Bool) (n : Nat) (u : TUnit) (capS : Bool)
   | num (k : Int)                                  -- unquoted number (plain columns)
 deriving Repr, DecidableEq
 
 /-- the pruner's reading of a right-hand side (ns). -/
 def Rhs.go (now : Int) : Rhs → Option Int
   | .lit l => l.go
-  | .rel p n u => some (relGo now p n u)
+  | .rel p n u capS => if capS then none else some (relGo now p n u)
   | .num _ => none
 
 /-- the value the query engine compares the column with (ns); literals DuckDB rejects make the whole
     query fail in both modes and are excluded by `Rhs.dbOk`. -/
 def Rhs.db (now : Int) : Rhs → Int
   | .lit l => l.db.getD 0
-  | .rel p n u => relDb now p n u
+  | .rel p n u _ => relDb now p n u
   | .num k => k
 
 def Rhs.dbOk : Rhs → Bool
@@ -413,7 +416,7 @@ def betweenPat (now : Int) (txt : List BAtom) : Option (Int × Int) :=
   | _ => none
 
 def isRel (start plus : Bool) : BAtom → Bool
-  | .cmp c o (.rel p _ _) =>
+  | .cmp c o (.rel p _ _ _) =>
     c.endsInTime && decide (p = plus) &&
       (if start then decide (o = .ge) || decide (o = .gt) else decide (o = .lt) || decide (o = .le))
   | _ => false
